@@ -39,6 +39,22 @@ ASSUMPTIONS = [
     "native byte order of the machine is read from sys.byteorder and passed to the model",
 ]
 
+MANIFEST = {
+    "text": ("Lean 4 theorems, for all inputs: two's-complement pack/unpack round trip on the full signed range of "
+             "every width and both byte orders; the 24-bit WAV path sign-extends every three-byte string; WavStream "
+             "over any well-formed 8/16/24/32-bit mono/stereo PCM data chunk yields exactly the stored integers "
+             "(keep) or those integers (8 bit: minus 128) / 2^(bits-1), always in [-1,1); the file is closed exactly "
+             "when the end is reached; chunks.struct and chunks.array (repaired as proposed for D5) both equal the "
+             "specification 'pack the sequence followed by (-len) mod size pad values, cut every size items' for "
+             "every size, length, byte order, machine order and element encoder, including where they stop on an "
+             "unpackable item; tied to /repo by a differential correspondence on every check"),
+    "note": ("Trusted: Lean kernel, axioms propext/Classical.choice/Quot.sound, the Python harness; struct, array, "
+             "wave and the IEEE-754 encoders of f/d are not modelled (the theorems take the element encoder as a "
+             "parameter; the driver's Float.toBits / toFloat32 bytes are compared with struct.pack on every float "
+             "case).  chunks.array in /repo is defective today (D5, D5b: known findings with a proposed fix); its "
+             "model is the repaired code."),
+}
+
 NATIVE = "<" if sys.byteorder == "little" else ">"
 WIDTH = {"b": 1, "h": 2, "i": 4, "f": 4, "d": 8}
 ORDERS = ["omit", None, "@", "=", "<", ">", "!"]
@@ -617,3 +633,14 @@ def classify(c, io_, drv):
             return "wav:header"
         return "wav:closed-state"
     return tag + ":model-only"
+
+
+def extra_checks(eng):
+    """platform assumptions of the model: the array item sizes and the native struct sizes of the five
+    formats are the standard ones, and the machine order is one of the two modelled"""
+    import array
+    ok = all(struct.calcsize(p + f) == WIDTH[f] for f in "bhifd" for p in ("", "@", "=", "<", ">", "!"))
+    yield ("struct-sizes-standard", ok, "struct.calcsize of b h i f d is not 1 2 4 4 8 on this machine")
+    ok = all(array.array(f).itemsize == WIDTH[f] for f in "bhifd")
+    yield ("array-itemsizes-standard", ok, "array.array itemsize of b h i f d is not 1 2 4 4 8 on this machine")
+    yield ("byteorder-known", sys.byteorder in ("little", "big"), "sys.byteorder=%r" % (sys.byteorder,))
